@@ -27,6 +27,11 @@ fn modes(rng: &mut crate::rng::Rng, with_flusher: bool) -> Vec<WMode> {
         },
     ];
     if with_flusher {
+        // the parameterless variants (documented defaults) take part as well
+        if rng.chance(1, 3) {
+            v.push(WMode::Async { pool: 50, msg: 200, flush_ms: 1000 });
+            v.push(WMode::BufFlush(8192, 1000));
+        }
         v.push(WMode::BufFlush(*rng.pick(&[7usize, 64]), 5));
     } else {
         v.push(WMode::SupportCapture);
